@@ -53,6 +53,14 @@ def correspondence(ctx):
         n = ctx.rng.randrange(4, 12)
         lab = [ctx.rng.choice(alpha) for _ in range(n)]
         cases.append(f'regrule|{hexs(lab)}|{ctx.rng.randrange(n)}')
+    for s_ in long_strings(ctx, alpha, (60 if ctx.tier == 'quick' else 3000)):
+        i_ = ctx.rng.randrange(len(s_))
+        s_[i_] = ctx.rng.choice([0x200C, 0x200D, 0xB7, 0x375, 0x5F3, 0x30FB, 0x660, 0x6F0])
+        cases.append(f'regrule|{hexs(s_)}|{i_}')
+        # ZWNJ deep inside a long run of transparent characters
+        k_ = ctx.rng.randrange(1, 120)
+        lab_ = [ctx.rng.choice([0x628, 0x627, 0x61])] + [0x64B] * k_ + [0x200C] + [0x64B] * ctx.rng.randrange(0, 120) + [ctx.rng.choice([0x627, 0x628, 0x61])]
+        cases.append(f'rule|zwnj|{hexs(lab_)}|{k_ + 1}')
     res = run_cases(cases, ctx.work)
 
     def nontrivial(case, impl):
